@@ -34,7 +34,7 @@ def attr_list(d):
     return ", ".join(parts)
 
 def add(fid, family, flavour, policy=None, limit=None, ttl=None, mem=None, fw=None, result=None, cache_if=False,
-        inval_on=False, versioned=False, tags=(), events=(), deps=(), name=None, gates=0, early=False):
+        inval_on=False, versioned=False, tags=(), events=(), deps=(), name=None, gates=0, early=False, via=None, zero_arg=False):
     if family != "meta" and flavour != "thread" and not (tags or events or deps):
         # a declared tag registers the clear callback, which the harness uses to empty store *and* queue between histories
         tags = ("rst",)
@@ -67,9 +67,19 @@ def add(fid, family, flavour, policy=None, limit=None, ttl=None, mem=None, fw=No
             code.append(f"#[{mac}({attr_list(d)})]\npub {asy}fn {fn}(k: u32) -> {rty} {{ let v = {body}({fid}, k)?; if k == 1 {{ return Ok(v); }} Ok(v) }}")
         else:
             code.append(f"#[{mac}({attr_list(d)})]\npub {asy}fn {fn}(k: u32) -> {rty} {{ if k == 1 {{ return {body}({fid}, k); }} {body}({fid}, k) }}")
+    elif not gates and via == "macro_rules":
+        # the whole return type arrives as a `ty` fragment of a declarative macro (an invisible group around it)
+        code.append(f"macro_rules! mk_{fn} {{ ($ret:ty) => {{ #[{mac}({attr_list(d)})]\npub {asy}fn {fn}(k: u32) -> $ret {{ {body}({fid}, k) }} }} }}\nmk_{fn}!({rty});")
+    elif not gates and via == "paren":
+        code.append(f"#[{mac}({attr_list(d)})]\n#[allow(unused_parens)]\npub {asy}fn {fn}(k: u32) -> ({rty}) {{ {body}({fid}, k) }}")
+    elif not gates and zero_arg:
+        code.append(f"#[{mac}({attr_list(d)})]\npub {asy}fn {fn}() -> {rty} {{ {body}({fid}, 0) }}")
     elif not gates:
         code.append(f"#[{mac}({attr_list(d)})]\npub {asy}fn {fn}(k: u32) -> {rty} {{ {body}({fid}, k) }}")
-    wrap = f"block_on({fn}(k))" if flavour == "async" else f"{fn}(k)"
+    if zero_arg:
+        wrap = f"block_on({fn}())" if flavour == "async" else f"{fn}()"
+    else:
+        wrap = f"block_on({fn}(k))" if flavour == "async" else f"{fn}(k)"
     ret = f"Ret::Res({wrap})" if result else f"Ret::Plain({wrap})"
     def opt(x, f=str):
         return "None" if x is None else f"Some({f(x)})"
@@ -80,7 +90,7 @@ def add(fid, family, flavour, policy=None, limit=None, ttl=None, mem=None, fw=No
         f'    FnInfo {{ id: {fid}, name: "{name or fn}", fn_name: "{fn}", family: "{family}", flavour: Flavour::{flavour.capitalize()}, policy: {pol}, '
         f'limit: {opt(limit)}, ttl: {opt(ttl)}, mem: {opt(mem)}, fw: {opt(fw, lambda v: repr(float(v)))}, is_result: {str(bool(result)).lower()}, '
         f'has_cache_if: {str(cache_if).lower()}, has_inval_on: {str(inval_on).lower()}, versioned: {str(versioned).lower()}, '
-        f'tags: {sl(tags)}, events: {sl(events)}, deps: {sl(deps)}, call: |k| {ret}, spawn: {spawn}, gates: {gates} }},')
+        f'tags: {sl(tags)}, events: {sl(events)}, deps: {sl(deps)}, call: |{"_k" if zero_arg else "k"}| {ret}, spawn: {spawn}, gates: {gates}, zero_arg: {str(zero_arg).lower()} }},')
 
 FLAVS = ["global", "thread", "async"]
 fid = 1000
@@ -108,6 +118,11 @@ for fl in FLAVS:
     for pol in (None, "lru", "lfu", "arc", "tlru"):
         add(fid, "core", fl, policy=pol, mem=70)
         fid += 1
+# functions without arguments: one key (the empty string), computed once
+for fl in FLAVS:
+    for pol in (None, "lru"):
+        add(fid, "core", fl, policy=pol, zero_arg=True)
+        fid += 1
 # --- Result functions
 fid = 2000
 for fl in FLAVS:
@@ -125,6 +140,14 @@ for fl in FLAVS:
     for lim in (None, 2):
         add(fid, "result", fl, limit=lim, result="short", inval_on=True)
         fid += 1
+# the return type reaches the attribute macro through a declarative macro's `ty` fragment, or in parentheses
+for fl in FLAVS:
+    for via in ("macro_rules", "paren"):
+        for mem in (None, 100):
+            add(fid, "result", fl, mem=mem, result="short", via=via)
+            fid += 1
+    add(fid, "result", fl, result="std", via="macro_rules")
+    fid += 1
 # an Ok that expires: Result together with ttl
 for fl in FLAVS:
     add(fid, "result", fl, ttl=2, result="short")
@@ -166,6 +189,11 @@ for fl in FLAVS:
 for fl in FLAVS:
     for pol in (None, "lru"):
         add(fid, "inval_on", fl, policy=pol, limit=None, ttl=2, inval_on=True, versioned=True)
+        fid += 1
+# every policy has its own store path: a refresh must replace the value under each of them
+for fl in FLAVS:
+    for pol in ("lfu", "arc", "tlru", "random"):
+        add(fid, "inval_on", fl, policy=pol, limit=2, inval_on=True, versioned=True)
         fid += 1
 # a refresh replaces in place: with room for two entries the neighbour must survive it
 for fl in FLAVS:
@@ -228,6 +256,11 @@ for fl in ("global", "async"):
 for (pol, lim, tg, ev, dp) in [("fifo", 2, ("t",), (), ()), ("lru", None, (), ("e",), ()), (None, 1, (), (), ("d",)), ("lfu", 2, ("t",), ("e",), ("d",))]:
     add(fid, "conc", "thread", policy=pol, limit=lim, tags=tg, events=ev, deps=dp)
     fid += 1
+# memory is the only bound: two of the 33-byte entries fit, a third must evict (appended last: earlier ids stay put)
+for fl in ("global", "async"):
+    for pol in ("fifo", "lru", "lfu"):
+        add(fid, "conc", fl, policy=pol, mem=70, tags=("t",), events=("e",), deps=("d",))
+        fid += 1
 
 with open(OUT, "w") as f:
     f.write("// @generated by /verif/gen/gen_corpus.py — do not edit\n")
